@@ -14,7 +14,12 @@ import (
 )
 
 const (
-	sqlCreateTable = `CREATE TABLE IF NOT EXISTS '%s' (key STRING PRIMARY KEY, value STRING, ttl DATETIME KEY);`
+	// key and value must be declared TEXT. "STRING" is not an SQLite type name:
+	// such a column gets NUMERIC affinity, so a key that looks like a number was
+	// stored as that number and "1", "01", "1.0" and " 1" all named the same row.
+	sqlCreateTable = `CREATE TABLE IF NOT EXISTS '%s' (key TEXT PRIMARY KEY, value TEXT, ttl DATETIME KEY);`
+	sqlKeyType     = `SELECT type FROM pragma_table_info('%s') WHERE name == 'key';`
+	sqlDropTable   = `DROP TABLE IF EXISTS '%s';`
 	sqlRead        = `SELECT value FROM '%s' WHERE key == ? AND ttl > unixepoch();`
 	sqlWrite       = `INSERT OR REPLACE INTO '%s' (key, value, ttl) VALUES (?, ?, ?);`
 )
@@ -43,6 +48,16 @@ func CreateTable(namespace string) {
 
 	if !Enabled.Load() {
 		return
+	}
+
+	// a table created by an earlier version has the STRING columns described
+	// above. It only holds cached data, so drop it and start again.
+	var keyType string
+	if db.QueryRow(fmt.Sprintf(sqlKeyType, namespace)).Scan(&keyType) == nil && keyType != "TEXT" {
+		if _, err := db.Exec(fmt.Sprintf(sqlDropTable, namespace)); err != nil {
+			dbFailed("dropping outdated table "+namespace, err)
+			return
+		}
 	}
 
 	_, err := db.Exec(fmt.Sprintf(sqlCreateTable, namespace))
